@@ -158,6 +158,58 @@ func (w *verifFailWriter) Write(p []byte) (int, error) {
 	return w.Writer.Write(p)
 }
 
+// verifBarrierStore lines concurrent conversions up right before their write to the shared TOC map:
+// the last store operation before `esgzDigest2TOC[...] = ...` is the deferred second Close of the
+// external-TOC writer; every conversion waits there until all n have arrived (or a timeout passes).
+type verifBarrierStore struct {
+	content.Store
+	n       int
+	mu      sync.Mutex
+	arrived int
+	release chan struct{}
+}
+
+func (s *verifBarrierStore) Writer(ctx context.Context, opts ...content.WriterOpt) (content.Writer, error) {
+	var wo content.WriterOpts
+	for _, o := range opts {
+		if err := o(&wo); err != nil {
+			return nil, err
+		}
+	}
+	w, err := s.Store.Writer(ctx, opts...)
+	if err != nil {
+		return nil, err
+	}
+	if strings.HasPrefix(wo.Ref, "external-toc") {
+		return &verifBarrierWriter{Writer: w, s: s}, nil
+	}
+	return w, nil
+}
+
+type verifBarrierWriter struct {
+	content.Writer
+	s      *verifBarrierStore
+	closes int
+}
+
+func (w *verifBarrierWriter) Close() error {
+	err := w.Writer.Close()
+	w.closes++
+	if w.closes == 2 {
+		w.s.mu.Lock()
+		w.s.arrived++
+		if w.s.arrived == w.s.n {
+			close(w.s.release)
+		}
+		w.s.mu.Unlock()
+		select {
+		case <-w.s.release:
+		case <-time.After(20 * time.Second):
+		}
+	}
+	return err
+}
+
 func verifReadBlob(cs content.Store, d digest.Digest) ([]byte, error) {
 	ctx := context.Background()
 	ra, err := cs.ReaderAt(ctx, ocispec.Descriptor{Digest: d})
@@ -470,6 +522,9 @@ func verifRandOpts(rnd *verifutil.Rand, files []string, zstdTarget bool, prio bo
 	minChunk := -1
 	if rnd.Intn(3) != 0 {
 		cs := []int{0, 1000, 4096, 16384, 50000}[rnd.Intn(5)]
+		if zstdTarget && cs == 1000 {
+			cs = 8192 // a zstd encoder per chunk is expensive; keep the zstd runs affordable
+		}
 		o = append(o, estargz.WithChunkSize(cs))
 		d = append(d, fmt.Sprintf("chunk=%d", cs))
 	}
@@ -1182,8 +1237,13 @@ func verifConcurrent(t *testing.T, out *verifutil.Out, rnd *verifutil.Rand, targ
 	}
 	c := verifNewConv(rnd, target, srcs, false)
 	out.Comment(fmt.Sprintf("concurrent %s/%s n=%d opts=%s", c.target, c.variant, len(srcs), c.optDesc))
+	t0 := time.Now()
 	res := verifConvertBatch(c, cs, srcs)
+	t1 := time.Now()
 	verifCheckBatch(out, rnd, cs, c, srcs, res, fmt.Sprintf("concurrent#%d", round))
+	if os.Getenv("VERIF_C19_TIMING") != "" {
+		fmt.Fprintf(os.Stderr, "concurrent#%d %s n=%d convert=%v check=%v\n", round, target, len(srcs), t1.Sub(t0), time.Since(t1))
+	}
 	kinds := map[string]int{}
 	for _, s := range srcs {
 		kinds[s.comp+"/"+s.kind]++
@@ -1362,6 +1422,78 @@ func verifImage(t *testing.T, out *verifutil.Out, rnd *verifutil.Rand, target st
 	out.Distinct(fmt.Sprintf("image:%s:%s:%d:%v:%s", c.target, c.variant, n, docker, c.optDesc))
 }
 
+// verifCorruptCompression is an external-TOC gzip compression whose data writer alters the stream it
+// is given: mode 0 flips one bit of the first byte (same length, other DiffID), mode 1 appends a byte
+// (other length and DiffID).  It stands for a lossy step inside the "lossless" writer.
+type verifCorruptCompression struct {
+	*esgzexternaltoc.GzipCompression
+	mode int
+	done *bool
+}
+
+type verifCorruptWriter struct {
+	estargz.WriteFlushCloser
+	c *verifCorruptCompression
+}
+
+func (c *verifCorruptCompression) Writer(w io.Writer) (estargz.WriteFlushCloser, error) {
+	gw, err := c.GzipCompression.Writer(w)
+	if err != nil {
+		return nil, err
+	}
+	return &verifCorruptWriter{gw, c}, nil
+}
+
+func (w *verifCorruptWriter) Write(p []byte) (int, error) {
+	if *w.c.done || len(p) == 0 {
+		return w.WriteFlushCloser.Write(p)
+	}
+	*w.c.done = true
+	q := append([]byte{}, p...)
+	if w.c.mode == 0 {
+		q[0] ^= 0x01
+	} else {
+		q = append(q, 0)
+	}
+	if _, err := w.WriteFlushCloser.Write(q); err != nil {
+		return 0, err
+	}
+	return len(p), nil
+}
+
+// verifLosslessFault: the lossless double check must refuse a writer that changed the stream — with
+// the same length (DiffID check) as well as with another length — and commit nothing it describes.
+func verifLosslessFault(t *testing.T, out *verifutil.Out, rnd *verifutil.Rand, round int) {
+	cs := verifNewStore(t)
+	comp := []string{"none", "gzip"}[rnd.Intn(2)]
+	mt := map[string]string{"none": ocispec.MediaTypeImageLayer, "gzip": ocispec.MediaTypeImageLayerGzip}[comp]
+	src := verifNewSrc(t, cs, rnd, mt, comp, fmt.Sprintf("lf%d", round))
+	mode := round % 2
+	chunk := []int{0, 1000, 50000}[rnd.Intn(3)]
+	fn, fin := layerConvert(func(c estargz.Compression) converter.ConvertFunc {
+		done := false
+		return layerLossLessConvertFunc(&verifCorruptCompression{c.(*esgzexternaltoc.GzipCompression), mode, &done}, chunk, 0)
+	}, 1+rnd.Intn(9))
+	c := &verifConv{target: "exttoc-lossless", variant: "layerLossLessConvertFunc(altering writer)", fn: fn, finalize: fin,
+		optDesc: fmt.Sprintf("chunk=%d,fault=%d", chunk, mode)}
+	out.Comment(fmt.Sprintf("lossless fault mode=%d src=%s", mode, comp))
+	r := verifConvertOne(context.Background(), c, cs, src.desc)
+	out.Count(fmt.Sprintf("lossless-fault:mode%d", mode))
+	out.Distinct(fmt.Sprintf("lossless-fault:%d:%s:%d", mode, comp, chunk))
+	switch {
+	case r.panic != nil:
+		out.Fail("conversion-panic", fmt.Sprintf("lossless fault mode %d: %v", mode, r.panic))
+	case r.err != nil:
+		// refused, as it must be
+	default:
+		what := map[int]string{0: "same length, other DiffID", 1: "other length"}[mode]
+		out.Fail("lossless-check-accepted-altered-stream", fmt.Sprintf("lossless conversion of a %s source through a writer that alters the stream (%s) returned %+v", comp, what, r.nd))
+		if r.nd != nil {
+			verifCheckBatch(out, rnd, cs, c, []*verifSrc{src}, []verifResult{r}, "lossless-fault")
+		}
+	}
+}
+
 // ---------------------------------------------------------------------------------------------
 // candidate findings: inputs/schedules on which the code as written misses the property.  Each class
 // has its own signature; the concurrent ones run in a child process because their failure mode can
@@ -1389,6 +1521,10 @@ func TestVerifC19Child(t *testing.T) {
 	rnd := verifutil.NewRand(verifutil.Seed() ^ uint64(verifutil.EnvInt("VERIF_C19_CHILD_ROUND", 0)+1)*0x9E37)
 	out := &verifChildOut{}
 	cs := verifNewStore(t)
+	if sc == "putstress" || sc == "putstress-lossless" {
+		verifPutStress(t, out, rnd, cs, sc == "putstress-lossless")
+		return
+	}
 	target := map[string]string{"sharedopts-exttoc": "exttoc", "sharedopts-zstd": "zstdchunked", "sharedopts-esgz": "esgz"}[sc]
 	if target == "" {
 		t.Fatalf("unknown scenario %q", sc)
@@ -1410,6 +1546,34 @@ func TestVerifC19Child(t *testing.T) {
 	verifCheckBatch(out, rnd, cs, c, srcs, res, "child:"+sc)
 }
 
+// verifPutStress: many tiny layers converted at once by ONE external-TOC converter instance, so that
+// the writes to the shared layer-digest -> TOC map overlap as much as the scheduler allows.
+func verifPutStress(t *testing.T, out verifEmitter, rnd *verifutil.Rand, cs content.Store, lossless bool) {
+	n := verifutil.EnvInt("VERIF_C19_CHILD_N", 96)
+	var srcs []*verifSrc
+	for i := 0; i < n; i++ {
+		var buf bytes.Buffer
+		tw := tar.NewWriter(&buf)
+		data := []byte(fmt.Sprintf("tiny %d %d", i, rnd.Intn(1000)))
+		tw.WriteHeader(&tar.Header{Typeflag: tar.TypeReg, Name: fmt.Sprintf("t%d", i), Mode: 0644, Size: int64(len(data))})
+		tw.Write(data)
+		tw.Close()
+		raw := buf.Bytes()
+		desc, nolabel := verifPut(t, cs, rnd, raw, ocispec.MediaTypeImageLayer, raw)
+		srcs = append(srcs, &verifSrc{desc: desc, blob: raw, stream: raw, files: []verifFile{{fmt.Sprintf("t%d", i), data}}, comp: "none", kind: "plain", nolabel: nolabel})
+	}
+	c := &verifConv{target: "exttoc", variant: "LayerConvertFunc", optDesc: "par=1"}
+	if lossless {
+		c.target, c.variant = "exttoc-lossless", "LayerConvertLossLessFunc"
+		c.fn, c.finalize = LayerConvertLossLessFunc(LayerConvertLossLessConfig{CompressionLevel: gzip.BestSpeed})
+	} else {
+		c.fn, c.finalize = LayerConvertFunc([]estargz.Option{estargz.WithParallelism(1), estargz.WithCompressionLevel(gzip.BestSpeed)}[:2:2], gzip.BestSpeed)
+	}
+	bs := &verifBarrierStore{Store: cs, n: n, release: make(chan struct{})}
+	res := verifConvertBatch(c, bs, srcs)
+	verifCheckBatch(out, rnd, cs, c, srcs, res, "putstress")
+}
+
 var verifChildFailRe = regexp.MustCompile(`(?m)^VERIF-ORACLE-FAIL (\S+) (.*)$`)
 
 // verifRunChild runs one child scenario and folds every way it can fail into ONE signature.
@@ -1427,8 +1591,8 @@ func verifRunChild(out *verifutil.Out, scenario, sig string, round int) bool {
 		why = append(why, strings.SplitN(s[i:], "\n", 2)[0])
 	}
 	for _, m := range verifChildFailRe.FindAllStringSubmatch(s, -1) {
-		if m[1] == verifSigMinChunk {
-			out.Fail(m[1], m[2]) // another class, with its own signature
+		if m[1] == verifSigMinChunk || strings.HasPrefix(scenario, "putstress") {
+			out.Fail(m[1], m[2]) // keeps its own signature
 			continue
 		}
 		why = append(why, m[1]+": "+m[2])
@@ -1445,7 +1609,11 @@ func verifRunChild(out *verifutil.Out, scenario, sig string, round int) bool {
 		if len(why) > 4 {
 			why = why[:4]
 		}
-		out.Fail(sig, fmt.Sprintf("scenario %s (8 layers converted concurrently by one converter instance whose option slice has spare capacity, as cmd/ctr-remote builds it), round %d: %s", scenario, round, strings.Join(why, " | ")))
+		desc := "8 layers converted concurrently by one converter instance whose option slice has spare capacity, as cmd/ctr-remote builds it"
+		if strings.HasPrefix(scenario, "putstress") {
+			desc = "96 tiny layers converted concurrently by one external-TOC converter instance (exact-capacity options)"
+		}
+		out.Fail(sig, fmt.Sprintf("scenario %s (%s), round %d: %s", scenario, desc, round, strings.Join(why, " | ")))
 		return true
 	}
 	return false
@@ -1525,6 +1693,17 @@ func TestVerifC19(t *testing.T) {
 		round++
 		verifImage(t, out, rnd, tg, round)
 		round++
+	}
+	for i := 0; i < 2+n/8; i++ {
+		verifLosslessFault(t, out, rnd, i)
+	}
+	// 3b. the shared TOC map under as much overlap as possible (child process: a concurrent map write is fatal)
+	out.Comment("put stress")
+	for i := 0; i < verifutil.EnvInt("VERIF_C19_STRESS", 3); i++ {
+		sc := []string{"putstress", "putstress-lossless"}[i%2]
+		if verifRunChild(out, sc, "tocmap-concurrent-write", i) {
+			break
+		}
 	}
 	// 4. classes with their own signature
 	if r := verifutil.EnvInt("VERIF_C19_FINDINGS", 2); r > 0 {
